@@ -81,6 +81,18 @@ func (c *Conn) Inject(d Datagram) bool {
 	}
 }
 
+// InjectOr is Inject that gives up when abort is closed.
+func (c *Conn) InjectOr(d Datagram, abort <-chan struct{}) bool {
+	select {
+	case c.rx <- d:
+		return true
+	case <-c.closed:
+		return false
+	case <-abort:
+		return false
+	}
+}
+
 // TryInject is Inject without blocking.
 func (c *Conn) TryInject(d Datagram) bool {
 	select {
